@@ -1009,21 +1009,18 @@ pub fn mutate(rng: &mut Rng, items: &mut Vec<TsItem>, rule: &str) -> Option<Stri
             }
         }
         "iface-field-args" => {
-            insert_at_random(rng, items, iface("IFA_I", &[], vec![fda("g", vec![iv("a", int())], int())]));
-            let (args, class): (Vec<InputValueDef>, &str) = match rng.below(5) {
-                0 => (vec![], "argument-missing"),
-                1 => (vec![iv("a", Ty::named("String"))], "argument-type"),
-                2 => (vec![iv("a", Ty::non_null(int()))], "argument-nullability"),
-                3 => (vec![iv("a", int()), iv("b", Ty::non_null(int()))], "extra-required-argument"),
-                _ => (vec![iv("b", int())], "argument-renamed"),
-            };
+            // IsValidImplementation 2.c / 2.d over the shape of both sides (c05/implx.rs): an operator applied to an
+            // implementing field that exists in the generated schema, or a self-contained gadget
             if rng.coin() {
-                insert_at_random(rng, items, obj("IFA_O", &["IFA_I"], vec![fda("g", args, int())]));
-                Some(format!("object:{class}"))
-            } else {
-                insert_at_random(rng, items, iface("IFA_O", &["IFA_I"], vec![fda("g", args, int())]));
-                Some(format!("interface:{class}"))
+                if let Some((class, _)) = crate::implx::mutate_existing_pair(rng, items, true) {
+                    return Some(class);
+                }
             }
+            let g = crate::implx::impl_gadget(rng, true);
+            for it in g.items {
+                insert_at_random(rng, items, it);
+            }
+            Some(g.class)
         }
         "union-member-non-object" => {
             let kind = [TypeKind::Interface, TypeKind::Scalar, TypeKind::Enum, TypeKind::Input, TypeKind::Union][rng.below(5)];
